@@ -110,6 +110,8 @@ pub enum Op {
     Serve { s: u8, n: u8, script: u32 },
     /// answer (ok=true) or drop (ok=false) the oldest held promise
     ReleaseHeld { ok: bool },
+    /// wait in `Promise::aborted()` on the oldest held promise, then drop it
+    AwaitAborted,
     Emit { s: u8, ev: u8 },
 
     CreateProxy { p: u8, c: u8, s: u8 },
@@ -518,7 +520,7 @@ impl Gen<'_, '_> {
         for (scope, res) in produces(ci, &op, &self.unbound, self.scopes) {
             self.producer.insert((scope, res), task);
         }
-        if matches!(op, Op::Serve { n: 0, .. } | Op::WaitForObject { .. } | Op::LifetimeEnded { .. }) {
+        if matches!(op, Op::Serve { n: 0, .. } | Op::WaitForObject { .. } | Op::LifetimeEnded { .. } | Op::AwaitAborted) {
             self.parked[task] = true;
         }
         self.tasks[task].ops.push(op);
@@ -616,6 +618,9 @@ impl Gen<'_, '_> {
         }
         if sc {
             return self.frag_channel();
+        }
+        if self.aim == Aim::Mixed && b % 32 == 5 {
+            return self.frag_abort_watch();
         }
         if self.aim == Aim::Mixed && b % 64 == 6 && self.allow.broker_shutdown_in_flight {
             let a = self.client();
@@ -749,6 +754,54 @@ impl Gen<'_, '_> {
         }
     }
 
+    /// A callee holds the promise of an unanswered call and waits in `Promise::aborted()`; the
+    /// caller aborts the call (by dropping the pending reply, now or later), answers never come.
+    fn frag_abort_watch(&mut self) {
+        if self.pub_svcs.is_empty() {
+            return self.frag_service();
+        }
+        let (a, s) = self.pub_svcs[self.pub_svcs.len() - 1 - self.t.below(self.pub_svcs.len())];
+        let a = a as usize;
+        if !self.cl[a].svc[s as usize] {
+            return self.frag_calls();
+        }
+        // the callee side: serve one call, hold its promise (script digit 7), wait for the abort
+        let ta = self.task(a);
+        if self.parked[ta] {
+            return self.frag_calls();
+        }
+        self.push(ta, Op::Serve { s, n: 1, script: 7 });
+        self.push(ta, Op::AwaitAborted);
+        // the caller side
+        let b = self.client_other_than(a);
+        let tb = self.task(b);
+        let p = match self.cl[b].proxy.iter().position(|p| *p == Some((a as u8, s))) {
+            Some(p) => p as u8,
+            None => {
+                let p = self.t.below(NPROXY) as u8;
+                self.cl[b].proxy[p as usize] = Some((a as u8, s));
+                self.push(tb, Op::CreateProxy { p, c: a as u8, s });
+                p
+            }
+        };
+        let f = self.t.below(4) as u8;
+        match self.t.weighted(&[3, 2, 1]) {
+            0 => self.push(tb, Op::Call { p, f, mode: CallMode::Abort }),
+            1 => {
+                self.push(tb, Op::Call { p, f, mode: CallMode::Stash });
+                if self.t.bool() {
+                    self.push(tb, Op::SyncBroker);
+                }
+                self.push(tb, Op::DropReply);
+            }
+            _ => {
+                // never aborted: the wait ends when the callee's client stops
+                self.cl[b].stash += 1;
+                self.push(tb, Op::Call { p, f, mode: CallMode::Stash });
+            }
+        }
+    }
+
     fn frag_events(&mut self) {
         if self.pub_svcs.is_empty() {
             return self.frag_service();
@@ -821,8 +874,15 @@ impl Gen<'_, '_> {
                 }
             }
             5 => {
-                let ok = self.t.bool();
-                self.push(ta, Op::ReleaseHeld { ok });
+                if self.t.weighted(&[2, 1]) == 1 {
+                    // blocks until the caller aborts or the client stops: on a task of its own
+                    // when there is one
+                    let tb = self.task_other(a, ta);
+                    self.push(tb, Op::AwaitAborted);
+                } else {
+                    let ok = self.t.bool();
+                    self.push(ta, Op::ReleaseHeld { ok });
+                }
             }
             _ => {
                 if self.cl[a].stash > 0 {
